@@ -12,6 +12,7 @@ The model is tied to the code by `harness/c01` (and c19, c04) on every run.
 import Verif.Lemmas.Chain
 import Verif.Lemmas.ChainF
 import Verif.Lemmas.Ancestor
+import Verif.Lemmas.Adopt
 
 namespace Verif.C01
 open Verif.Chain
@@ -290,5 +291,49 @@ def ancLoopShort (U : Nat → Blk) (m : Mgr) (depth height : Nat) : Nat → Nat 
 
 example : ancLoopShort Uex (run Uex Mgr.init [[1, 2], [3, 4, 5], [6]]) 2 4 2 0 5 5 = 4 ∧
     anc Uex 2 5 = 3 := by decide
+
+
+/-! ### liveness: the heaviest valid chain offered is adopted ("heaviest-known") -/
+
+/-- **a valid, sufficiently heavier chain is adopted**: in every reachable state, a batch that is a
+parent-linked run of header-valid, non-future blocks on top of a block whose state is stored —
+whether its blocks are new, already stored as side blocks, or were already refused once as part of
+a longer invalid chain — and whose last block heads a chain that is valid all the way down to
+genesis and sufficiently heavier than the tip, is accepted without error and becomes the tip
+(with exactly one notification, by `tip_moves_only_if_heavier`) -/
+theorem valid_heavier_chain_adopted {U} (hU : WFU U) (hist : List (List Nat)) (batch : List Nat) (last : Nat)
+    (hlast : batch.getLastD (run U Mgr.init hist).tip = last) (hne : batch ≠ [])
+    (hgood : GoodRun U (run U Mgr.init hist) (run U Mgr.init hist).tip batch)
+    (hvalid : ∀ k, k < (U last).height → (U (anc U k last)).bodyOk = true)
+    (hheavy : heavier U last (run U Mgr.init hist).tip = true) :
+    (addBlocks U (run U Mgr.init hist) batch).2 = none ∧
+    (addBlocks U (run U Mgr.init hist) batch).1.tip = last := by
+  have h := inv_reachable hU hist
+  generalize run U Mgr.init hist = m at *
+  cases batch with
+  | nil => exact absurd rfl hne
+  | cons b bs =>
+    simp only [addBlocks]
+    obtain ⟨g1, g2⟩ := addLoop_good hU (b :: bs) m m.tip h h.tip_state hgood
+    obtain ⟨j1, j2, _, _, j5, _⟩ := addLoop_spec hU (b :: bs) m m.tip h h.tip_state
+    rcases hg : addBlocks.go U (b :: bs) m m.tip with ⟨m1, e, cs⟩
+    rw [hg] at g1 g2 j1 j2 j5
+    simp only at g1 g2 j1 j2 j5
+    subst g1
+    simp only
+    have hcs : cs = last := by rw [g2, hlast]
+    subst hcs
+    have htip : m1.tip = m.tip := by simp [Mgr.tip, j2]
+    exact maybeReorg_adopts j1 j5 hvalid (by rw [htip]; exact hheavy)
+
+/-- non-vacuity, and the history of a seeded faulty variant: fork 3-4-5 is refused (4 is invalid),
+the valid heavier sibling chain 1-2-6 is then offered again as a batch of already stored blocks
+plus one — and adopted -/
+example : GoodRun Uex (run Uex Mgr.init [[1, 2], [3, 4, 5]]) (run Uex Mgr.init [[1, 2], [3, 4, 5]]).tip [6] ∧
+    heavier Uex 6 (run Uex Mgr.init [[1, 2], [3, 4, 5]]).tip = true ∧
+    (addBlocks Uex (run Uex Mgr.init [[1, 2], [3, 4, 5]]) [6]).1.tip = 6 := by
+  refine ⟨?_, by decide, by decide⟩
+  simp only [GoodRun]
+  refine ⟨Or.inl (by decide), by decide, by decide, trivial⟩
 
 end Verif.C01
